@@ -37,6 +37,8 @@ def extra_for(fname):
 
 def run(chk):
     chk.level = "proof"
+    from props import native_diff
+    native_diff.run(chk, "C03")
     from props import backend_conformance
     backend_conformance.run(chk, "C03", names=("block_diag", "kron", "concat", "promote_types", "conj", "cast"))
     chk.assume("simplifications (flattening nested sums/products, identity elimination, scalar merging, Diagonal (x) Diagonal fusion) are rules of "
